@@ -7,6 +7,7 @@ toolchain go1.25.8
 require (
 	github.com/blinklabs-io/gouroboros v0.188.0
 	github.com/blinklabs-io/ouroboros-mock v0.16.0
+	golang.org/x/crypto v0.55.0
 )
 
 require (
@@ -25,7 +26,6 @@ require (
 	github.com/minio/sha256-simd v1.0.1 // indirect
 	github.com/utxorpc/go-codegen v0.19.2 // indirect
 	github.com/x448/float16 v0.8.4 // indirect
-	golang.org/x/crypto v0.55.0 // indirect
 	golang.org/x/sys v0.47.0 // indirect
 	google.golang.org/protobuf v1.36.12 // indirect
 )
